@@ -161,6 +161,156 @@ def run_model(ctx, wd, name, K, replay_responses):
             ctx.sample({"events": dicts, "decoded": want})
 
 
+def tokenise(text, os_chars):
+    """real (decoded) wire text -> the class symbols of SseWire.tla"""
+    out = []
+    for line in re.split(r"(\r\n|\r|\n)", text):
+        if line in ("\r\n", "\r", "\n"):
+            out += {"\r\n": ["CR", "LF"], "\r": ["CR"], "\n": ["LF"]}[line]
+            continue
+        if line == ": ping":
+            out += ["CO", "SP", "CH"]
+            continue
+        m = re.match(r"(data|event|id|retry):", line)
+        rest = line
+        if m:
+            out.append(m.group(1))
+            rest = line[len(m.group(1)):]
+            if m.group(1) == "retry" and re.fullmatch(r": \d+", rest):
+                out += ["CO", "SP", "ZERO" if int(rest[2:]) == 0 else "DIGITS"]
+                continue
+        for c in rest:
+            out.append("CO" if c == ":" else "SP" if c == " " else "OS" if c in os_chars else "CH")
+    return out
+
+
+def long_sequences(ctx):
+    """code -> spec: sequences of 5-12 events with longer fields, through SendEventResponse on ASGI (virtual time, real pings in the
+    pauses) and WSGI; after every chunk the bytes received so far are handed to TLC: the module's client reads the OBSERVED wire
+    (RoundTrip), then the wire must be the module's own encoding"""
+    import asyncio
+    import random
+    from .. import vloop, tracecheck
+    from ..recipes import stream
+    import baize.asgi as A
+    import baize.wsgi as W
+    wd = tlc.workdir_for("c19trace")
+    rnd = random.Random(900 + ctx.seed)
+    n_tr = 80 if ctx.tier == "quick" else 600
+    data_alpha, name_alpha = ["LF", "CR", "OS", "CO", "SP", "CH", "CH"], ["CH", "CH", "CO", "SP"]
+
+    def rand_event():
+        has_data = rnd.random() < 0.8
+        has_id = rnd.random() < 0.4
+        e = {"hasData": has_data, "data": [rnd.choice(data_alpha) for _ in range(rnd.randint(0, 6))] if has_data else [],
+             "event": [rnd.choice(name_alpha) for _ in range(rnd.randint(1, 2))] if rnd.random() < 0.4 else [],
+             "hasId": has_id, "id": [rnd.choice(name_alpha) for _ in range(rnd.randint(0, 2))] if has_id else [], "retry": rnd.choice([0, 0, 0, 1, 2])}
+        if not (e["hasData"] or e["event"] or e["hasId"] or e["retry"]):
+            e["hasData"] = True
+        return e
+
+    async def timed(dicts, gaps, charset):
+        chunks = []
+
+        async def gen():
+            for d, gp in zip(dicts, gaps):
+                if gp:
+                    await asyncio.sleep(gp)
+                yield dict(d)
+
+        async def receive():
+            await asyncio.Event().wait()
+
+        async def send(m):
+            if m["type"] == "http.response.body" and m.get("body"):
+                chunks.append(m["body"])
+        kw = {} if charset == "utf-8" else {"charset": charset}
+        await A.SendEventResponse(gen(), ping_interval=2, **kw)({"type": "http", "method": "GET", "path": "/", "headers": []}, receive, send)
+        return chunks
+
+    traces, meta = [], []
+    for t in range(n_tr):
+        charset = "utf-8" if t % 3 else ALT_CHARSETS[(t // 3) % 3]
+        evs = [rand_event() for _ in range(rnd.randint(5, 12))]
+        dicts = [event_dict(e, t + 3 * i, charset) for i, e in enumerate(evs)]
+        iface = "asgi" if t % 2 == 0 else "wsgi"
+        case = {"events": dicts, "charset": charset, "iface": iface, "source": "long sequence"}
+        try:
+            if iface == "asgi":
+                chunks = vloop.run(timed(dicts, [rnd.choice([0, 0, 0, 3, 5]) for _ in dicts], charset))
+            else:
+                kw = {} if charset == "utf-8" else {"charset": charset}
+                r = servers.wsgi_call(W.SendEventResponse(stream("wsgi", [dict(d) for d in dicts]), ping_interval=30, **kw), servers.Req())
+                if r.exc is not None:
+                    raise r.exc
+                chunks = [c for c in r.items if c]
+            texts = [c.decode(charset) for c in chunks]
+        except Exception as e:  # noqa
+            ctx.violation(case, "the events as bytes in " + charset, type(e).__name__ + ": " + str(e)[:100], "SendEventResponse failed on a sequence of events (%s)" % type(e).__name__)
+            continue
+        ctx.count()
+        os_chars = set(PALETTES[charset][0])
+        entries, wire, k = [], "", 0
+        for tx in texts:
+            wire += tx
+            if tx == ": ping\n\n":
+                entries.append({"k": "ping", "wire": tokenise(wire, os_chars)})
+            elif k < len(evs):
+                entries.append({"k": "event", "e": evs[k], "wire": tokenise(wire, os_chars)})
+                k += 1
+            else:
+                k += 1
+        if k != len(evs):
+            ctx.violation(case, "%d chunks, one per event" % len(evs), {"chunks": texts}, "SendEventResponse does not send one block per yielded event")
+            continue
+        traces.append({"events": entries})
+        meta.append(case)
+        # the Python client too
+        want, last = [], ""
+        for d in dicts:
+            if "id" in d:
+                last = d["id"]
+            if "data" in d:
+                want.append(expected_event(d, last))
+        got = parse_stream(wire)
+        if got != want:
+            ctx.violation(case, want, {"decoded": got, "wire": wire}, "a conforming EventSource parser does not decode the yielded sequence of events")
+        ctx.nontriv(("longseq", t))
+    K = dict(MaxData=0, DataAlphabet=frozenset(), NameAlphabet=frozenset(), Splitter="wire", MaxEvents=0, MaxPings=0, Retries=frozenset())
+    acc, rejected = tracecheck.validate(wd, "TraceSseWire", traces, constants=dict(K, Strict=False), invariants=["RoundTrip"])
+    ctx.traces_validated += acc
+    bad = set()
+    for tid, name, st in tracecheck.validate.last_invariant_failures:
+        bad.add(tid)
+        st = st if isinstance(st, dict) else {}
+        ctx.violation(dict(meta[tid], after_chunks=st.get("l", 1) - 1), "the client of SseWire.tla decodes the yielded events from the observed bytes",
+                      {"parsed": st.get("parsed")}, "the bytes sent for a sequence of events violate %s of SseWire.tla" % name)
+    for tid, prefix in rejected:
+        if tid not in bad:
+            raise common.MachineryError("TraceSseWire (observation mode) cannot follow sequence %d at chunk %d" % (tid, prefix + 1))
+    good = [t for i, t in enumerate(traces) if i not in bad]
+    acc2, rej2 = tracecheck.validate(wd, "TraceSseWire", good, constants=dict(K, Strict=True))
+    for tid, prefix in rej2:
+        t = good[tid]
+        ctx.drift_at({"chunk": prefix + 1, "entry": {k: v for k, v in t["events"][prefix].items() if k != "wire"} if prefix < len(t["events"]) else None},
+                     "Encode() of SseWire.tla", t["events"][prefix]["wire"][-30:] if prefix < len(t["events"]) else None,
+                     "the bytes of chunk %d are not the encoding of SseWire.tla" % (prefix + 1))
+    import copy
+    fal = []
+    for t in good[:8]:
+        t2 = copy.deepcopy(t)
+        i = len(t2["events"]) // 2
+        t2["events"][i]["wire"] = t2["events"][i]["wire"][:-1] + ["CH", "LF"]
+        t2["events"] = t2["events"][:i + 1]
+        fal.append(t2)
+    if fal:
+        acc3, _ = tracecheck.validate(wd, "TraceSseWire", fal, constants=dict(K, Strict=True))
+        if acc3:
+            raise common.MachineryError("binding self-test: %d falsified event-stream traces accepted by TraceSseWire" % acc3)
+    ctx.notes.append("TraceSseWire: %d sequences (%d chunks, real pings on ASGI) validated; %d falsified ones rejected" % (
+        len(traces), sum(len(t["events"]) for t in traces), len(fal)))
+
+
 def run(ctx):
     ctx.rule = ("every event over the class alphabet (data up to MaxData characters incl. CR, LF, CRLF, the 8 other separators, colon, "
                 "space; any subset of event/id/retry) and event sequences with pings; each concretised, encoded by the real code and "
@@ -214,6 +364,7 @@ def run(ctx):
             ctx.violation({"asgi_event_gaps": gaps, "ping_interval": ping}, want, {"decoded": got},
                           "events yielded after a keep-alive ping are lost, duplicated or out of order")
         ctx.nontriv(("timed", tuple(gaps), ping))
+    long_sequences(ctx)
     # the same event dictionary yielded more than once (a tick event kept by the application) is delivered every time, unchanged
     import baize.wsgi as W
     from ..recipes import stream
